@@ -2,13 +2,22 @@
 """Folds seeded/RESULTS.tsv into seeded/<name>/meta.json and prints the DESIGN.md section 13 table."""
 import json, os, re, glob, sys
 ROOT = os.path.dirname(os.path.dirname(os.path.abspath(__file__)))
-res = {}
-for line in open(os.path.join(ROOT, "seeded/RESULTS.tsv")):
-    m = re.match(r"(\S+) (C\d+) (quick|thorough) exit=(\d+) (.*)", line.strip())
-    if not m: continue
-    name, prop, tier, rc, rest = m.groups()
-    witness = rest.split("|",1)[1].strip() if "|" in rest else ""
-    res.setdefault(name, {})[f"{prop} {tier}"] = {"exit": int(rc), "detected": rc == "1", "witness": witness[:200]}
+def load(fn):
+    res = {}
+    path = os.path.join(ROOT, fn)
+    if not os.path.exists(path): return res
+    for line in open(path):
+        m = re.match(r"(\S+) (C\d+) (quick|thorough) exit=(\d+) (.*)", line.strip())
+        if not m: continue
+        name, prop, tier, rc, rest = m.groups()
+        witness = rest.split("|",1)[1].strip() if "|" in rest else ""
+        key = f"{prop} {tier}"
+        # the FIRST result of a file is kept (later lines of RESULTS.tsv are re-tests)
+        res.setdefault(name, {}).setdefault(key, {"exit": int(rc), "detected": rc == "1", "witness": witness[:200]})
+    return res
+first = load("seeded/RESULTS.tsv")
+final = load("seeded/RESULTS-final.tsv")
+res = final
 rows = []
 for d in sorted(glob.glob(os.path.join(ROOT, "seeded/C*-*"))):
     name = os.path.basename(d)
@@ -16,6 +25,7 @@ for d in sorted(glob.glob(os.path.join(ROOT, "seeded/C*-*"))):
     if not os.path.exists(mp): continue
     meta = json.load(open(mp))
     meta["checks_run"] = res.get(name, {})
+    meta["first_run_before_strengthening"] = first.get(name, {})
     notes = open(os.path.join(d, "notes.md")).read() if os.path.exists(os.path.join(d, "notes.md")) else ""
     if "summary" not in meta:
         # first non-heading sentence of the notes as a one-line summary
@@ -24,8 +34,10 @@ for d in sorted(glob.glob(os.path.join(ROOT, "seeded/C*-*"))):
     json.dump(meta, open(mp, "w"), indent=1)
     det = [k for k, v in meta["checks_run"].items() if v["detected"]]
     miss = [k for k, v in meta["checks_run"].items() if not v["detected"]]
-    rows.append((name, meta["property"], meta["summary"].replace("|", "/"), ", ".join(det) or "-", ", ".join(miss) or "-"))
-print("| seeded change | property | what it does | caught by | not caught by |")
+    f0 = first.get(name, {})
+    f0s = "; ".join(f"{k}: {'caught' if v['detected'] else ('inconclusive' if v['exit']==2 else 'MISSED')}" for k, v in f0.items()) or "-"
+    rows.append((name, meta["summary"].replace("|", "/")[:150], f0s, ", ".join(det) or "-", ", ".join(miss) or "-"))
+print("| seeded change | what it does (first line of its notes) | first run, before any strengthening | caught now by | not caught by |")
 print("|---|---|---|---|---|")
 for r in rows:
     print("| " + " | ".join(r) + " |")
